@@ -155,7 +155,7 @@ def rule_flow(run, prog):
                        "the result of pop() is discarded although the token kind does not determine the character" + why, pc)
                 continue
             run.ob("R-10.1", key, False, f"pop() result used in an unrecognised way: {text(st)}", pc)
-    run.require(n >= 18, f"only {n} pop sites in the sub-parsers (floor 18)")
+    run.require(n >= 13, f"only {n} pop sites in the sub-parsers (floor 13)")
 
 
 def _assignments(fn, name):
